@@ -371,6 +371,28 @@ def motif_unnested_ctx(rng, ctxs=None):
             "faults": {"items": {}, "flushes": {}, "ctx": {}}, "prio": gen_prio(rng, kinds)}
 
 
+def motif_aio_inside_task(rng):
+    """A task calls asyncio.run(fn.asyncio()) from its synchronous code (fn uses a context), then
+    goes on through contexts and suspensions of its own, next to a sibling task."""
+    kinds = rng.randint(1, 2)
+
+    def items(m):
+        return [["y", ["item", rng.randint(0, kinds - 1), rng.randint(0, 5)]] for _ in range(m)]
+    victim = items(rng.randint(0, 1)) + [["aio"]] + items(rng.randint(1, 2))
+    if rng.random() < 0.5:
+        victim = victim[:-1] + [["with", ["ctx"], victim[-1:]]] + items(rng.randint(0, 1))
+    sib = items(rng.randint(1, 3))
+    if rng.random() < 0.4:
+        sib = [["with", ["ctx"], sib]]
+    calls = [["call", 1, []], ["call", 2, []]]
+    rng.shuffle(calls)
+    templates = [{"kind": "fn", "steps": [["y", [rng.choice(["t", "l"]), calls]]]},
+                 {"kind": "fn", "steps": victim}, {"kind": "fn", "steps": sib}]
+    return {"templates": templates, "root": {"tmpl": 0, "conv": rng.choice(["call", "value", "wrapped"])},
+            "kinds": kinds, "svs": 1, "yield_only": True, "reentry": False, "ctx_fault": True,
+            "faults": {"items": {}, "flushes": {}, "ctx": {}}, "prio": gen_prio(rng, kinds)}
+
+
 def motif_sync_then_ctx(rng, ctxs=None):
     """A task makes a synchronous call that needs a flush, then - in the same step - enters a
     context and is suspended inside it while sibling tasks run and batches are flushed."""
